@@ -17,7 +17,6 @@ Nothing of plumpy is changed: the three process classes below are ordinary user 
 `load_instance_state` and their step functions to leave a trace), the loaders are ordinary ObjectLoader subclasses.
 """
 import asyncio
-import copy
 import logging
 import os
 import pickle
@@ -348,11 +347,9 @@ class World:
         return len(self.events)
 
     def _collect(self, mark, k):
+        """Resolutions of process-class names since `mark` belong to task k."""
         for who, ident in self.events[mark:]:
-            if ident in DEFAULT_NAMES:
-                self.log.append([k, who, 'd', DEFAULT_NAMES[ident]])
-            elif ident in CUSTOM_NAMES:
-                self.log.append([k, who, 'c', CUSTOM_NAMES[ident]])
+            self._collect_one(who, ident, k)
 
     def task(self, t):
         """Send one task and let the launcher take it as far as it goes without the turn of the loop."""
@@ -401,7 +398,7 @@ class World:
         created = self.newpids[before] if len(self.newpids) > before else None
         self.replies.append(('implied', created))
         self.replies.append(fut)
-        # attribute the resolutions: the first one belongs to the create task
+        # attribute the resolutions: the first one belongs to the create task, the rest to the continue task
         first = True
         for who, ident in self.events[mark:]:
             if ident in DEFAULT_NAMES or ident in CUSTOM_NAMES:
@@ -411,7 +408,7 @@ class World:
     def _collect_one(self, who, ident, k):
         if ident in DEFAULT_NAMES:
             self.log.append([k, who, 'd', DEFAULT_NAMES[ident]])
-        else:
+        elif ident in CUSTOM_NAMES:
             self.log.append([k, who, 'c', CUSTOM_NAMES[ident]])
 
     def runloop(self):
